@@ -179,6 +179,11 @@ func (t *Table) addGlobalIndex(gsiInput *types.GlobalSecondaryIndex) error {
 		return err
 	}
 
+	for key, item := range t.Data {
+		// items whose attributes do not fit the new index are left out of it
+		_ = i.putData(key, item)
+	}
+
 	t.Indexes[*gsiInput.IndexName] = i
 
 	return nil
